@@ -131,7 +131,12 @@ pub fn build(s: &Spec, gc: &mut GC) -> Object {
         Spec::Str(x) => Object::string(x.as_str(), gc),
         Spec::Arr(v) => {
             let items: Vec<Object> = v.iter().map(|x| build(x, gc)).collect();
-            Object::array(items, gc)
+            // both constructors: from a vector (odd lengths) and from a slice (even lengths)
+            if items.len() % 2 == 0 {
+                Object::array(&items[..], gc)
+            } else {
+                Object::array(items, gc)
+            }
         }
     }
 }
